@@ -19,12 +19,12 @@ import (
 func init() { components["match"] = matchComponent }
 
 type matchCase struct {
-	Kind    string                 `json:"kind"`
-	P       interface{}            `json:"pattern"`
-	F       interface{}            `json:"message"`
-	Bs      map[string]interface{} `json:"bindings"`
-	Planted map[string]interface{} `json:"planted,omitempty"`
-	Class   string                 `json:"class"`
+	Kind    string                   `json:"kind"`
+	P       interface{}              `json:"pattern"`
+	F       interface{}              `json:"message"`
+	Bs      map[string]interface{}   `json:"bindings"`
+	Planted map[string]interface{}   `json:"planted,omitempty"`
+	Class   string                   `json:"class"`
 	Results []map[string]interface{} `json:"results"`
 	// C03 observations
 	RepsAgree   bool `json:"reps_agree"`
